@@ -147,7 +147,7 @@ class PrefLibInstance:
         """
 
         data = urllib.request.urlopen(url)
-        lines = [line.decode("utf-8").strip() for line in data]
+        lines = [line.strip() for line in data.read().decode("utf-8").splitlines()]
         data.close()
 
         self.file_path = url
